@@ -27,6 +27,9 @@ import DadiVerif.Model.LowPass
                                                           draw, one per individual); sels = pop/pop/…; pop = sel,sel,… or `-`; sel = i.i.… positions among the
                                                           sorted called genotypes, in the order subsample_genotypes_1D returns its rows)
    errors: err odd (odd haplotype number), err F (F = 1 or outside [0,1)), err size, err cov, err missing-sim,
+   lp_corrected_draws thr pops model tables -> ok <nd>   output of lowpass_func with the simulated tables computed by the model from recorded draws:
+                                                         corrected (axesOf pops) thr model (fun i => simTable pops i (draws i)) — the object of C18_total_le_simulated
+                                                         (tables = `-` | af=blocks!af=blocks!…, af and blocks as for lp_simtable)
            err nan (a generated definedness condition fails: the code would evaluate 0 ** -1 or x / 0; lp_simtable: no locus simulated, 0/0),
            err draws (lp_simtable: the draws do not have the shape the sizes require) -/
 namespace DadiVerif.Driver.LowPass
@@ -87,8 +90,41 @@ def parseBlock (s : String) : Option BlockDraw :=
       some { loci := loci, sels := sels }
   | _ => none
 
+def parseDrawTables (s : String) : Option (List (List Nat × List BlockDraw)) :=
+  if s = "-" then some [] else
+    (s.splitOn "!").mapM fun e =>
+      match e.splitOn "=" with
+      | [i, b] => do
+          let i ← parseIdx i
+          let b ← (b.splitOn "|").mapM parseBlock
+          some (i, b)
+      | _ => none
+
 def handle (toks : List String) : Option String :=
   match toks with
+  | ["lp_corrected_draws", thr, pops, model, tables] => do
+      let thr ← parseRat thr
+      let pops ← (pops.splitOn ";").mapM parsePop
+      let M ← parseND model
+      let draws ← parseDrawTables tables
+      match pops.findSome? popErr with
+      | some e => some e
+      | none =>
+        let A := axesOf pops
+        let shapeIn := A.map (·.nIn)
+        let shapeOut := A.map (·.nOut)
+        if M.shape ≠ shapeIn then some "err size" else
+        let need := (boxIdx shapeIn).filter fun i => Gen.LowPass.useSim (pncND A i) thr
+        if need.any (fun i => !(draws.any fun s => s.1 == i)) then some "err missing-sim" else
+        -- each simulated table computed once: simTable pops i blocks j = tableOf binned j
+        let tabs := draws.map fun d => (d.1, (simBinned pops d.1 d.2).map fun binned => (binned.isEmpty, (ND.ofFn shapeOut (tableOf binned)).data))
+        if tabs.any (fun t => t.2.isNone) then some "err draws"
+        else if tabs.any (fun t => match t.2 with | some (e, _) => e | none => false) then some "err nan" else
+        let sim : List Nat → List Nat → Rat := fun i j =>
+          match tabs.find? (fun s => s.1 == i) with
+          | some (_, some (_, arr)) => arr.getD (flatIdx shapeOut j) 0
+          | _ => 0
+        some ("ok " ++ showND (ND.ofFn shapeOut (corrected A thr M.get sim)))
   | ["lp_simtable", pops, af, nsim, blocks] => do
       let pops ← (pops.splitOn ";").mapM parsePop
       let af ← parseNatList af "."
